@@ -314,6 +314,14 @@ func (g *c02Gen) block(depth int) string {
 		}
 		return fmt.Sprintf("<pre%s>%s\n  %s</pre>", g.attrs(), g.text(), g.text())
 	case 11:
+		if g.r.Chance(1, 3) {
+			// HTML integration points inside foreign content: below them <style> / <script> are HTML raw-text elements again
+			return core.Pick(g.r, []string{
+				fmt.Sprintf(`<svg viewBox="0 0 10 10"><foreignObject width="5" height="5"><style>p > a { content: "%s" }</style><p>%s</p><script>var a = 1 < 2 && "q" > 'b';</script></foreignObject></svg>`, core.Pick(g.r, []string{"x", "&amp;", "<b>"}), g.text()),
+				fmt.Sprintf(`<math><mtext><style>b > i { content: '%s' }</style>%s</mtext><mi>x</mi></math>`, core.Pick(g.r, []string{"q", "a&b"}), g.text()),
+				fmt.Sprintf(`<svg viewBox="0 0 4 4"><desc><style>a > b { color: red }</style>%s</desc><title><script>if (a < b && c > d) { e("f") }</script></title><rect width="1" height="1"></rect></svg>`, g.text()),
+			})
+		}
 		return fmt.Sprintf(`<svg%s viewBox="0 0 10 10"><circle cx="5" cy="5" r="4"></circle><path d="M0 0L1 1" fill="%s"></path><use xlink:href="#i%d" xml:lang="en"></use><text>%s</text></svg>`, g.attrs(), g.attrVal(), g.r.Intn(3), g.text())
 	case 12:
 		return fmt.Sprintf("<blockquote%s><p>%s</p></blockquote>", g.attrs("cite"), g.inline(1))
